@@ -339,6 +339,12 @@ func (h *hist) update(off int64, w float64) {
 				}
 			} else {
 				c.Count("adjust:duration-outside-assumed-range")
+				if d <= 0 {
+					// recorded finding (known_findings.json): Time.Sub saturated (gap >= 2^63 ns, ~292 years
+					// between two updates of one epoch) => ceil(dt)*1e9 overflows => non-positive duration
+					fail("C19:known:adjust-duration-nonpositive:gap-saturated", "Adjust with a duration <= 0 when the gap between two updates of one epoch saturates Time.Sub (>= 2^63 ns)",
+						map[string]any{"duration": d, "ceil_dt": D.String()})
+				}
 			}
 			if !gapOK {
 			} else if D.Cmp(big.NewInt(slewCheckedMaxD)) <= 0 {
@@ -351,6 +357,13 @@ func (h *hist) update(off int64, w float64) {
 				}
 			} else {
 				c.Count("adjust:slew-outside-assumed-range")
+				lim := new(big.Int).Mul(D, big.NewInt(500000))
+				if new(big.Int).Abs(big.NewInt(o)).Cmp(lim) > 0 && d > 0 {
+					// recorded finding: from d = 9 007 199 268 s (~285 years) on the clamp d*500e-6, converted to
+					// nanoseconds, can exceed 500000*d by 1 ns (float rounding)
+					fail("C19:known:slew-exceeds-500ppm:d>=9007199268", "|slew| exceeds 500 ppm x ceil(dt) by float rounding for gaps of 285 years and more",
+						map[string]any{"slew_ns": o, "ceil_dt": D.String()})
+				}
 			}
 		case strings.Contains(a, "="): // state fields (compared with the model, not part of the oracle)
 		default:
